@@ -19,13 +19,20 @@ MODULES = {
     "cmd": ("bin", "src/cmd.rs", "cmd"),
 }
 
+# harness files that need another harness file spliced as well
+FILE_DEPS = {"mnemonic": ["wordlist"], "hdk": ["path"]}
+
 # ids of known findings that harnesses know how to exclude (compiled in as crate::__verif_kf::KF_<id>)
 KNOWN_FINDING_IDS = ["D7"]
 
+import prechecks
+
 HARNESSES = []
-PRECHECKS = {}
+PRECHECKS = {"C01": [prechecks.wordlist_contract], "C02": [prechecks.wordlist_contract], "C12": [prechecks.wordlist_contract]}
 # properties whose claim was withdrawn because no query terminates under the caps: id -> reason (goes to not_applicable)
 WITHDRAWN = {}
+# the subset of C17-tagged harnesses that the quick tier of C17 runs (the thorough tier runs all of them)
+C17_QUICK = set()
 
 Q, T = "quick", "thorough"
 FMT_STUBS = ["alloc::fmt::format -> empty String (error messages are outside the claim)",
@@ -39,33 +46,35 @@ def H(name, file, props, tiers=(Q, T), timeout=600, **meta):
 
 
 # =========================================================================================== C07
-H("c07_len", "rlp", ["C07", "C17"], timeout=300,
+H("c07_len", "rlp", ["C07", "C17"], timeout=300, mem_gb=6,
   functions=["transaction::rlp::len"],
   inputs="len: usize (all 2^64 values), offset in {0x80, 0xc0}",
-  bound="none on the input; unwind 10 covers the 8 length bytes",
+  bound="none on the input",
   spec="strict header decoder returns (kind, len, header size); output length is minimal")
 for L, tiers in [(0, (Q, T)), (1, (Q, T)), (2, (Q, T)), (3, (T,)), (20, (T,)), (32, (T,)), (33, (T,)), (54, (T,)),
-                 (55, (Q, T)), (56, (Q, T)), (57, (Q, T)), (64, (T,)), (100, (T,)), (128, (T,))]:
-    H(f"c07_bytes_{L:03d}", "rlp", ["C07", "C17"], tiers=tiers, timeout=600,
+                 (55, (Q, T)), (56, (Q, T)), (57, (Q, T)), (64, (T,)), (100, (T,)), (128, (Q, T)), (255, (T,)), (256, (T,)),
+                 (257, (T,))]:
+    H(f"c07_bytes_{L:03d}", "rlp", ["C07", "C17"], tiers=tiers, timeout=900, mem_gb=(6 if L < 200 else 20),
       functions=["transaction::rlp::bytes", "transaction::rlp::len"],
       inputs=f"content: [u8; {L}] (all values)", bound=f"length fixed to {L} in this query",
       spec="single byte < 0x80 is itself; otherwise strict string header(L) || content, nothing trailing")
-H("c07_bytes_symlen", "rlp", ["C07", "C17"], timeout=900,
+H("c07_bytes_symlen", "rlp", ["C07", "C17"], timeout=1200, mem_gb=16,
   functions=["transaction::rlp::bytes", "transaction::rlp::len"],
-  inputs="content: [u8; 40], length symbolic in 0..=40", bound="length <= 40",
-  spec="as c07_bytes_L for every length at once")
-H("c07_uint", "rlp", ["C07", "C06", "C17"], timeout=900,
+  inputs="content: [u8; 60], length symbolic in 0..=60", bound="length <= 60",
+  spec="as c07_bytes_L for every length at once (both sides of the 55/56 boundary)")
+H("c07_uint", "rlp", ["C07", "C06", "C17"], timeout=900, mem_gb=6,
   functions=["transaction::rlp::uint", "transaction::rlp::bytes", "transaction::rlp::len",
              "ethnum::U256::{leading_zeros,to_be_bytes}"],
   inputs="value: U256 (all 2^256 values)", bound="none on the input",
   spec="big-endian without leading zero bytes, zero = 0x80, single byte < 0x80 is itself")
 for nm, tiers in [("c07_list_0_0_0", (Q, T)), ("c07_list_1_0_2", (T,)), ("c07_list_20_20_15", (Q, T)),
                   ("c07_list_21_20_15", (Q, T)), ("c07_list_33_33_33", (T,)), ("c07_iter_1_33_21", (Q, T)),
-                  ("c07_iter_0_0_0", (T,)), ("c07_list_empty", (Q, T)), ("c07_list_long", (T,))]:
-    H(nm, "rlp", ["C07", "C17"], tiers=tiers, timeout=900,
+                  ("c07_iter_0_0_0", (T,)), ("c07_list_empty", (Q, T)), ("c07_list_130_130_0", (T,)),
+                  ("c07_iter_100_100_56", (Q, T))]:
+    H(nm, "rlp", ["C07", "C17"], tiers=tiers, timeout=900, mem_gb={"c07_list_130_130_0": 28, "c07_iter_100_100_56": 9}.get(nm, 6),
       functions=["transaction::rlp::list", "transaction::rlp::iter", "transaction::rlp::len"],
       inputs="item contents symbolic, item lengths concrete (in the harness name)",
-      bound="three items (two for _long) of the stated lengths: sums 0, 3, 55, 56, 99, 55, 260",
+      bound="three items of the stated lengths: payload sums 0, 3, 55, 56, 99, 55, 260, 256",
       spec="strict list header(sum of item lengths) || concatenation of the items")
 
 
@@ -137,16 +146,16 @@ H("c18_prefix_full_address", "cmd_new", ["C18", "C17"], tiers=(T,), timeout=1800
   bound="prefix of 40/41 digits", spec="matches exactly that address; 41 digits match nothing; no out-of-bounds read")
 
 # =========================================================================================== C19
-H("c19_permissive_hex_ascii6", "cmd", ["C19", "C17"], timeout=1500,
+H("c19_permissive_hex_ascii6", "cmd", ["C19", "C17"], tiers=(T,), timeout=3000, mem_gb=30,
   functions=["cmd::permissive_hex", "hex::decode", "char::is_whitespace"],
   inputs="every ASCII string of 0..=6 bytes", bound="length <= 6, ASCII",
   spec="strip whitespace, optional 0x, even number of hex digits of either case -> bytes; else Err")
-H("c19_permissive_hex_unicode_ws", "cmd", ["C19", "C17"], timeout=1500,
+H("c19_permissive_hex_unicode_ws", "cmd", ["C19", "C17"], tiers=(T,), timeout=3000, mem_gb=30,
   functions=["cmd::permissive_hex", "hex::decode", "char::is_whitespace"],
   inputs="four ASCII bytes with U+2003 at a symbolic position", bound="7 bytes",
   spec="Unicode whitespace is ignored anywhere, including inside the 0x prefix")
-for l, tiers in [(0, (Q, T)), (1, (Q, T)), (3, (T,))]:
-    H(f"c19_roundtrip_{l}", "cmd", ["C19", "C17"], tiers=tiers, timeout=1500,
+for l, tiers in [(0, (T,)), (1, (T,)), (3, (T,))]:
+    H(f"c19_roundtrip_{l}", "cmd", ["C19", "C17"], tiers=tiers, timeout=3000, mem_gb=30,
       functions=["hex::encode", "cmd::permissive_hex"],
       inputs=f"data: [u8; {l}] (all values)", bound=f"{l} bytes",
       spec="hex::encode gives two lower-case digits per byte; permissive_hex('0x' + that + newline) = data")
@@ -184,8 +193,15 @@ H("c01_to_phrase", "mnemonic", ["C01", "C02", "C17"], timeout=1500, files=["word
   inputs="buf: [u8; 64] (all values), len in {16,20,24,28,32}", bound="none beyond the five lengths",
   stubs=WL_STUBS, trusted=WL_TRUST,
   spec="asks for exactly 3*len/4 words, k-th index = bits 11k..11k+10 of buf, words joined by single spaces, no trailing separator")
-for n, tiers in [(3, (Q, T)), (5, (Q, T)), (7, (T,))]:
-    H(f"c01_split_{n}", "mnemonic", ["C01", "C02", "C17"], tiers=tiers, timeout=1500,
+for w, tiers in [(12, (Q, T)), (24, (T,))]:
+    H(f"c01_layout_{w}", "mnemonic", ["C01", "C02", "C17"], tiers=tiers, timeout=1500,
+      functions=["mnemonic::Mnemonic::from_phrase_str", "mnemonic::Language::split (real split_whitespace)"],
+      inputs=f"{w} word indices and the checksum hash symbolic; the phrase text has a fixed messy layout: leading/trailing "
+             "whitespace and separators tab, LF, two spaces, CRLF, U+3000, space+U+00A0, U+2003+tab+space",
+      bound=f"{w} words, one concrete layout", stubs=WL_STUBS, trusted=WL_TRUST,
+      spec="same acceptance decision, entropy and reported length as for the single-space layout")
+for n, tiers in [(3, (T,)), (5, (T,))]:
+    H(f"c01_split_{n}", "mnemonic", ["C01", "C02", "C17"], tiers=tiers, timeout=3600,
       functions=["mnemonic::Language::split", "str::split_whitespace"],
       inputs=f"every ASCII string of exactly {n} bytes", bound=f"{n} bytes, ASCII",
       spec="tokens are exactly the maximal runs of non-whitespace bytes, in order")
@@ -207,14 +223,14 @@ H("c12_get_entropy", "mnemonic", ["C12", "C17"], timeout=900, files=["wordlist"]
 # =========================================================================================== C10
 KECCAK_STUB = ["ethdigest::Digest::of (Keccak-256) -> uninterpreted: records the bytes it is given, returns 32 symbolic bytes"]
 KECCAK_TRUST = ["Keccak-256 (ethdigest) computes the standard function"]
-for l, tiers in [(0, (Q, T)), (1, (T,)), (9, (Q, T)), (10, (Q, T)), (11, (T,)), (32, (T,)), (99, (T,)), (100, (T,)),
+for l, tiers in [(0, (Q, T)), (1, (T,)), (9, (Q, T)), (10, (Q, T)), (11, (T,)), (32, (T,)), (64, (T,)), (99, (T,)), (100, (T,)),
                  (101, (T,)), (127, (T,)), (128, (T,))]:
-    H(f"c10_digest_{l:03d}", "message", ["C10", "C17"], tiers=tiers, timeout=1800, mem_gb=(20 if l > 64 else 9),
+    H(f"c10_digest_{l:03d}", "message", ["C10", "C17"], tiers=tiers, timeout=2400, mem_gb=(44 if l > 64 else 30 if l > 32 else 16 if l > 16 else 9),
       functions=["message::EthereumMessage::signing_message", "message::digest", "io::Write::write_fmt / usize Display (real)"],
       inputs=f"message: [u8; {l}] (all values, arbitrary non-UTF-8 content)", bound=f"length {l}",
       stubs=KECCAK_STUB, trusted=KECCAK_TRUST,
       spec="exactly one Keccak invocation over 0x19 'Ethereum Signed Message:\\n' || decimal(len) || message; digest returned unchanged")
-H("c10_digest_symlen", "message", ["C10", "C17"], timeout=1500,
+H("c10_digest_symlen", "message", ["C10", "C17"], timeout=2400, mem_gb=20,
   functions=["message::EthereumMessage::signing_message", "message::digest", "io::Write::write_fmt / usize Display (real)"],
   inputs="message: symbolic length 0..=24, all contents", bound="length <= 24", stubs=KECCAK_STUB, trusted=KECCAK_TRUST,
   spec="as c10_digest_L for every length 0..=24 in one query")
@@ -246,32 +262,41 @@ LEAF_STUBS = ["transaction::rlp::uint -> recorder: logs the U256 it is given, re
               "for all 2^256 values by c07_uint)",
               "transaction::rlp::bytes -> recorder: logs the byte string (contract decided by c07_bytes_*)",
               "transaction::accesslist::AccessList::rlp_encode -> recorder (contract decided by c06_alist_*)"] + KECCAK_STUB
-for nm, fn, spec in [
-    ("c06_legacy", "LegacyTransaction::rlp_encode",
-     "[nonce, gasPrice, gas, to, value, data] then (v, r, s) if signed (v = 35+2c+parity or 27+parity) else (chainId, 0, 0) "
-     "if a chain id is present; absent recipient = empty string"),
-    ("c06_eip2930", "Eip2930Transaction::rlp_encode",
-     "0x01 || [chainId, nonce, gasPrice, gas, to, value, data, accessList] + (yParity, r, s) if signed"),
-    ("c06_eip1559", "Eip1559Transaction::rlp_encode",
-     "0x02 || [chainId, nonce, maxPriorityFeePerGas, maxFeePerGas, gas, to, value, data, accessList] + (yParity, r, s) if signed")]:
-    H(nm, "transaction", ["C06", "C11", "C07", "C17"], timeout=1800, mem_gb=14,
-      functions=["transaction::" + fn, "transaction::rlp::{iter,list,len} (real)", "account::Signature::{v,r,s,y_parity} (real)"],
+C06_SPECS = {
+    "legacy": ("LegacyTransaction::rlp_encode",
+               "[nonce, gasPrice, gas, to, value, data] then (v, r, s) if signed (v = 35+2c+parity or 27+parity) else "
+               "(chainId, 0, 0) if a chain id is present; absent recipient = empty string"),
+    "eip2930": ("Eip2930Transaction::rlp_encode",
+                "0x01 || [chainId, nonce, gasPrice, gas, to, value, data, accessList] + (yParity, r, s) if signed"),
+    "eip1559": ("Eip1559Transaction::rlp_encode",
+                "0x02 || [chainId, nonce, maxPriorityFeePerGas, maxFeePerGas, gas, to, value, data, accessList] + "
+                "(yParity, r, s) if signed"),
+}
+for nm, kind, tiers in [("c06_legacy_unsigned_nochain", "legacy", (T,)), ("c06_legacy_unsigned_chain", "legacy", (Q, T)),
+                        ("c06_legacy_signed_nochain", "legacy", (T,)), ("c06_legacy_signed_chain", "legacy", (Q, T)),
+                        ("c06_eip2930_unsigned", "eip2930", (T,)), ("c06_eip2930_signed", "eip2930", (Q, T)),
+                        ("c06_eip1559_unsigned", "eip1559", (Q, T)), ("c06_eip1559_signed", "eip1559", (Q, T))]:
+    H(nm, "transaction", ["C06", "C11", "C17"], tiers=tiers, timeout=1800, mem_gb=14,
+      functions=["transaction::" + C06_SPECS[kind][0], "transaction::rlp::{iter,list,len} (real)",
+                 "account::Signature::{v,r,s,y_parity} (real)"],
       inputs="every U256 field: all 2^256 values; recipient present/absent with 20 symbolic bytes; 3 symbolic data bytes; "
-             "chain id present/absent; unsigned / signed with either parity (r, s fixed distinct scalars)",
+             "parity symbolic (r, s fixed distinct scalars); signed/unsigned and chain id presence fixed per query (in the name)",
       bound="calldata 3 bytes, access list 0/1 entries (both abstracted by the recorder); legacy chain ids < 2^255-18 (D7)",
-      stubs=LEAF_STUBS, trusted=KECCAK_TRUST, spec=spec)
-H("c06_signing_message", "transaction", ["C06", "C11", "C17"], timeout=1800, mem_gb=14,
-  functions=["transaction::Transaction::signing_message", "transaction::Transaction::rlp_encode (dispatch)"],
-  inputs="transaction kind (3), all field values symbolic", bound="as the structure harnesses",
-  stubs=LEAF_STUBS, trusted=KECCAK_TRUST,
-  spec="exactly one Keccak invocation over exactly the unsigned encoding of the same variant; digest returned unchanged")
-for nm, tiers in [("c06_alist_empty", (Q, T)), ("c06_alist_1_0", (Q, T)), ("c06_alist_1_1", (T,)), ("c06_alist_1_2", (Q, T)),
-                  ("c06_alist_2_1_0", (T,)), ("c06_alist_2_2_2", (T,))]:
-    H(nm, "transaction", ["C06", "C07", "C17"], tiers=tiers, timeout=1800, mem_gb=14,
+      stubs=LEAF_STUBS, trusted=KECCAK_TRUST, spec=C06_SPECS[kind][1])
+for nm, tiers in [("c06_signing_message_legacy_nochain", (T,)), ("c06_signing_message_legacy_chain", (Q, T)),
+                  ("c06_signing_message_eip2930", (T,)), ("c06_signing_message_eip1559", (Q, T))]:
+    H(nm, "transaction", ["C06", "C11", "C17"], tiers=tiers, timeout=1800, mem_gb=14,
+      functions=["transaction::Transaction::signing_message", "transaction::Transaction::rlp_encode (dispatch)"],
+      inputs="all field values symbolic; transaction kind fixed per query", bound="as the structure harnesses",
+      stubs=LEAF_STUBS, trusted=KECCAK_TRUST,
+      spec="exactly one Keccak invocation over exactly the unsigned encoding of the same variant; digest returned unchanged")
+for nm, tiers in [("c06_alist_empty", (Q, T)), ("c06_alist_1_0", (T,)), ("c06_alist_1_1", (T,))]:
+    H(nm, "transaction", ["C06", "C07", "C17"], tiers=tiers, timeout=2400, mem_gb=(6 if nm.endswith("empty") else 40),
       functions=["transaction::accesslist::AccessList::rlp_encode", "StorageSlot::rlp_encode",
                  "transaction::rlp::{bytes,list,iter,len} (real)"],
       inputs="addresses and storage slots symbolic; shape (entries, slots per entry) fixed per query",
-      bound="<= 2 entries x <= 2 slots (payloads on both sides of the 55/56 and 255/256 boundaries)",
+      bound="empty list (quick); one entry with 0/1 slots is attempted in the thorough tier with a 40 GB cap (memcpy of "
+            "symbolic length per nested item; 14 GB was not enough)",
       spec="byte-exact canonical RLP of [[address, [slot, ...]], ...] built independently by the harness")
 
 
@@ -320,20 +345,25 @@ H("c09_int_range", "typeddata", ["C09", "C08", "C17"], timeout=1500,
 H("c08_atom_bool", "typeddata", ["C08", "C09", "C17"], timeout=1500,
   functions=["typeddata::Types::encode_value (Bool arm)", "bool::deserialize(serde_json::Value)"],
   inputs="JSON true/false/null/string/number", bound="-", stubs=TD_STUB, spec="true -> 1, false -> 0, other JSON kinds Err")
-for nm, tiers in [("c09_bytes1_len0", (T,)), ("c09_bytes1_len1", (Q, T)), ("c09_bytes1_len2", (Q, T)), ("c09_bytes4_len3", (Q, T)),
-                  ("c09_bytes4_len4", (T,)), ("c09_bytes4_len5", (T,)), ("c09_bytes32_len31", (T,)), ("c09_bytes32_len32", (T,)),
-                  ("c09_bytes32_len33", (T,))]:
-    H(nm, "typeddata", ["C09", "C08", "C17"], tiers=tiers, timeout=1800, mem_gb=14,
-      functions=["typeddata::Types::encode_value (Bytes arm)", "serialization::bytes::deserialize", "hex::decode"],
-      inputs="byte string content symbolic, lengths (N, L) in the harness name", bound="N in {1,4,32}, L in {N-1,N,N+1}",
-      stubs=TD_STUB, spec="Ok iff L = N; word = bytes left-aligned, zero padded")
+BYTES_LEAF = ["serialization::bytes::deserialize -> returns the harness' byte string or an error (decided on its own by c13_bytes_N)"]
+for nm, tiers in [("c09_bytes1_len0", (Q, T)), ("c09_bytes1_len1", (Q, T)), ("c09_bytes1_len2", (Q, T)), ("c09_bytes4_len3", (Q, T)),
+                  ("c09_bytes4_len4", (T,)), ("c09_bytes4_len5", (T,)), ("c09_bytes31_len31", (T,)), ("c09_bytes31_len32", (Q, T)),
+                  ("c09_bytes32_len31", (Q, T)), ("c09_bytes32_len32", (Q, T)), ("c09_bytes32_len33", (Q, T))]:
+    H(nm, "typeddata", ["C09", "C08", "C17"], tiers=tiers, timeout=1800, mem_gb=9,
+      functions=["typeddata::Types::encode_value (Bytes(Some(n)) arm)"],
+      inputs="byte string content symbolic, lengths (N, L) in the harness name; leaf parser may also refuse",
+      bound="N in {1,4,31,32}, L in {N-1,N,N+1}", stubs=TD_STUB + BYTES_LEAF,
+      spec="Ok iff the leaf accepted and L = N; word = bytes left-aligned, zero padded")
+H("c08_atom_bytes_dynamic", "typeddata", ["C08", "C17"], timeout=1800, mem_gb=9,
+  functions=["typeddata::Types::encode_value (Bytes(None) arm)"], inputs="37 symbolic bytes", bound="37 bytes",
+  stubs=TD_STUB + BYTES_LEAF + KECCAK_STUB, trusted=KECCAK_TRUST, spec="word = Keccak-256 of exactly the raw bytes")
 H("c08_atom_address", "typeddata", ["C08", "C17"], timeout=1800, mem_gb=14,
   functions=["typeddata::Types::encode_value (Address arm)", "ethaddr Address::deserialize"],
   inputs="address: 20 symbolic bytes rendered as lower-case 0x-hex", bound="-", stubs=TD_STUB, spec="word = 12 zero bytes || address")
-H("c08_atom_dynamic", "typeddata", ["C08", "C17"], timeout=1800, mem_gb=14,
-  functions=["typeddata::Types::encode_value (Bytes(None) and String arms)"],
-  inputs="5 symbolic bytes as dynamic bytes, or 5 ASCII characters as string", bound="5 bytes",
-  stubs=TD_STUB + KECCAK_STUB, trusted=KECCAK_TRUST, spec="word = Keccak-256 of the raw bytes / of the UTF-8 text")
+H("c08_atom_string", "typeddata", ["C08", "C17"], timeout=1800, mem_gb=14,
+  functions=["typeddata::Types::encode_value (String arm)", "Cow<str>::deserialize(serde_json::Value)"],
+  inputs="5 symbolic ASCII characters", bound="5 bytes",
+  stubs=TD_STUB + KECCAK_STUB, trusted=KECCAK_TRUST, spec="word = Keccak-256 of the UTF-8 text")
 for nm, tiers in [("c09_array_fixed2_len1", (Q, T)), ("c09_array_fixed2_len2", (T,)), ("c09_array_fixed2_len3", (T,)),
                   ("c08_array_dyn_len0", (T,)), ("c08_array_dyn_len2", (Q, T))]:
     H(nm, "typeddata", ["C09", "C08", "C17"], tiers=tiers, timeout=1800, mem_gb=14,
@@ -410,3 +440,33 @@ for nm, tiers, to in [("c03_master_s16", (T,), 3000), ("c03_master_s32", (T,), 3
       bound="seed length and depth as in the name", stubs=HDK_STUBS, trusted=HDK_TRUST,
       spec="BIP-32: master = HMAC('Bitcoin seed', seed); per component data = 00||k||ser32(i+2^31) or serP(point(k))||ser32(i); "
            "child = (IL + k) mod n, chain = IR; Err iff a parent key or IL is 0 or >= n or the child is 0 (IL = 0 is don't-care)")
+
+
+# =========================================================================================== C02
+for pn, tiers in [(0, (Q, T)), (1, (Q, T)), (2, (T,)), (3, (T,))]:
+    H(f"c02_seed_p{pn}", "mnemonic", ["C02", "C17"], tiers=tiers, timeout=3000, mem_gb=20, files=["wordlist"],
+      functions=["mnemonic::Mnemonic::seed", "mnemonic::Mnemonic::to_phrase", "format!(\"mnemonic{}\") (real)",
+                 "unicode_normalization nfkd() (real decomposition tables and canonical ordering)"],
+      inputs=f"entropy buffer: all values, 5 lengths; passphrase: {pn} characters, each a symbolic choice of a 10-character palette "
+             "(ASCII, precomposed accent, full-width, ligature, enclosed digit, astral plane, two combining marks of different "
+             "classes, compatibility letter + mark, Hangul syllable)",
+      bound=f"passphrase of {pn} palette characters",
+      stubs=["pbkdf2::pbkdf2 -> uninterpreted: records password, salt, rounds, output length and PRF type, fills the output with "
+             "symbolic bytes", WL_STUBS[1], WL_STUBS[2]],
+      trusted=["PBKDF2-HMAC-SHA512 (pbkdf2, hmac, sha2) computes the standard function",
+               "NFKD expectations come from the Unicode Character Database via Python's unicodedata (hard-coded in the harness)"],
+      spec="one PBKDF2 call: password = canonical phrase rendered from the stored entropy, salt = 'mnemonic' || UTF-8(NFKD(passphrase)), "
+           "2048 rounds, HMAC-SHA512, 64 bytes returned unchanged")
+
+HEX_STUB = ["hex::decode (dependency) -> records the text it is handed, returns an arbitrary verdict/bytes (trusted; its own "
+            "behaviour is only decided in the thorough-tier c19_permissive_hex_* / c19_roundtrip_* queries)"]
+for n, tiers in [(0, (Q, T)), (2, (Q, T)), (3, (Q, T)), (4, (Q, T)), (5, (T,)), (6, (T,)), (8, (T,))]:
+    H(f"c19_filter_ascii_{n}", "cmd", ["C19", "C17"], tiers=tiers, timeout=1800, mem_gb=14,
+      functions=["cmd::permissive_hex (whitespace filter, optional 0x prefix, result pass-through)"],
+      inputs=f"every ASCII string of exactly {n} bytes; decoder verdict symbolic", bound=f"{n} bytes, ASCII",
+      stubs=HEX_STUB, trusted=["hex 0.4 decodes an even number of hex digits of either case and rejects anything else"],
+      spec="exactly one decode, of the input with all whitespace removed and one optional leading 0x stripped; Ok bytes and "
+           "errors are passed through unchanged")
+H("c19_filter_unicode_ws", "cmd", ["C19", "C17"], timeout=1800, mem_gb=14,
+  functions=["cmd::permissive_hex"], inputs="four ASCII bytes with U+2003 at a symbolic position", bound="7 bytes",
+  stubs=HEX_STUB, spec="Unicode whitespace is removed anywhere, including inside the prefix")
